@@ -97,10 +97,20 @@ def add_defect(rng, proj):
     """a type error or a warning in one reachable non-entry module (for C19: diagnostics must be non-empty)"""
     reach = sorted(_reachable(proj["imports"]) - {0}) or [0]
     m = rng.choice(reach)
+    if proj.get("lazy_entry") and proj["imports"][0] and proj["imports"][0][-1] != 0:
+        m = proj["imports"][0][-1]
     what = rng.choice(["type-error", "unused", "unused", "name-error"])
     p = dict(proj)
     p["defect"] = {"module": m, "what": what}
     return p
+
+
+def unused_imports(proj):
+    """imports that the importer never looks at (project flag "lazy_entry": the entry's last import): the module is
+    still loaded, but it is joined only by join_all at the end of the entry's analysis"""
+    if proj.get("lazy_entry") and proj["imports"][0]:
+        return {(0, proj["imports"][0][-1])}
+    return set()
 
 
 def simulate(proj):
@@ -119,7 +129,7 @@ def simulate(proj):
                 load(j)
             if state[j] == "done":
                 complete.add((i, j))
-        val[i] = consts[i] + sum(val[j] for j in imports[i] if (i, j) in complete)
+        val[i] = consts[i] + sum(val[j] for j in imports[i] if (i, j) in complete and (i, j) not in unused_imports(proj))
         order.append(i)
         state[i] = "done"
     load(0)
@@ -136,11 +146,14 @@ def render(proj):
         L = []
         for j in imports[i]:
             L.append('m%d = import "m%d"' % (j, j))
-        terms = [str(consts[i])] + ["m%d.v" % j for j in imports[i] if (i, j) in complete]
+        unused = unused_imports(proj)
+        terms = [str(consts[i])] + ["m%d.v" % j for j in imports[i] if (i, j) in complete and (i, j) not in unused]
         L.append(".v: Int = " + " + ".join(terms))
         L.append('.tag: Str = "s%d"' % i)
         L.append(".getc(): Int = %d" % consts[i])
         for j in imports[i]:
+            if (i, j) in unused:
+                continue
             if (i, j) in complete:
                 L.append("t%d: Int = m%d.v" % (j, j))
                 L.append("u%d: Str = m%d.tag" % (j, j))
@@ -156,6 +169,8 @@ def render(proj):
         L.append('print! "M:%d"' % i)
         if i == 0:
             for j in imports[0]:
+                if (0, j) in unused:
+                    continue
                 if (0, j) in complete:
                     L.append('print! "V:%d:" + str(m%d.v)' % (j, j))
                     L.append('print! "T:%d:" + m%d.tag' % (j, j))
@@ -163,7 +178,7 @@ def render(proj):
                         if (j, k) not in complete:
                             L.append('print! "B:%d:%d:" + str(m%d.bk%d())' % (j, k, j, k))
             for k in imports[0]:
-                if (0, k) not in complete:      # self import of the entry
+                if (0, k) not in complete and (0, k) not in unused:      # self import of the entry
                     L.append('print! "B:0:%d:" + str(bk%d())' % (k, k))
         out[i] = "\n".join(L) + "\n"
     return out
@@ -175,7 +190,10 @@ def expected(proj):
     lines = set()
     for i in order:
         lines.add("M:%d" % i)
+    unused = unused_imports(proj)
     for j in imports[0]:
+        if (0, j) in unused:
+            continue
         if (0, j) in complete:
             lines.add("V:%d:%d" % (j, val[j]))
             lines.add("T:%d:s%d" % (j, j))
@@ -183,7 +201,7 @@ def expected(proj):
                 if (j, k) not in complete:
                     lines.add("B:%d:%d:%d" % (j, k, val[k] if proj.get("backvar") else proj["consts"][k]))
     for k in imports[0]:
-        if (0, k) not in complete:
+        if (0, k) not in complete and (0, k) not in unused:
             lines.add("B:0:%d:%d" % (k, val[k] if proj.get("backvar") else proj["consts"][k]))
     return {"markers": sorted("M:%d" % i for i in order), "lines": sorted(lines), "modules": sorted(order)}
 
